@@ -10,14 +10,14 @@ CHECKS = {
     "C01": (
         "fault_enumeration",
         "runtime structural monitor over a discrete-event simulation of real instances (host model mirroring the daemon's timers, timestamps and stop-the-world BMCA): grandmaster from the reference data set comparison, tree/steps/one-master-per-segment checks on observed port states and data sets, flap detection on the port-state event log, one injected fault per topology",
-        "Seeded topologies (chains, shared segments, rings, two ports of one instance on one segment incl. BMCA phases aligned with the own-announce arrival window, star, mixed redundant; <= 6 nodes) of real PtpInstances/Ports run in virtual time to a settle bound, are checked structurally, observed 20 intervals for flapping, get one fault (cut/restore link, silence node, quality change) and are checked again. Verdicts use virtual time only. Daemon tier (daemon/dtier.py): three real statime daemons (statime-linux main.rs, sockets, virtual system clock) on a bridged veth segment in network namespaces must elect the best-ranked clock, re-elect after the grandmaster is SIGSTOPped and return to it after SIGCONT, each within 60 s of wall time (measured 0.5-2 s), with no second master's Announces on the wire; skipped (deciding nothing) where the sandbox cannot create namespaces. Nodes draw priority2 from five values with frequent priority1 ties; Announce sequence ids carry per-node offsets so that the 0x7fff->0x8000 and 0xffff->0 crossings fall into the flap-observation window.",
+        "Seeded topologies (chains, shared segments, rings, two ports of one instance on one segment incl. BMCA phases aligned with the own-announce arrival window, star, mixed redundant; <= 6 nodes) of real PtpInstances/Ports run in virtual time to a settle bound, are checked structurally, observed 20 intervals for flapping, get one fault (cut/restore link, silence node, quality change) and are checked again. Verdicts use virtual time only. Daemon tier (daemon/dtier.py): three real statime daemons (statime-linux main.rs, sockets, virtual system clock) on a bridged veth segment in network namespaces must elect the best-ranked clock, re-elect after the grandmaster is SIGSTOPped and return to it after SIGCONT, each within 60 s of wall time (measured 0.5-2 s), with no second master's Announces on the wire; skipped (deciding nothing) where the sandbox cannot create namespaces. Nodes draw priority2 from five values with frequent priority1 ties; Announce sequence ids carry per-node offsets so that the 0x7fff->0x8000 and 0xffff->0 crossings fall into the flap-observation window. A slave-only node may be made master-capable at run time (set_slave_only(false), clockClass 248), also on a segment of slave-only clocks only.",
         "Settle bounds (12+4n)I / (16+4n)I after a fault (measured worst convergence is reported in evidence). Redundant topologies run with the path-trace option (without it the protocol counts stepsRemoved to 255 after a grandmaster loss, which is IEEE behaviour). No frame loss (the property speaks of undisturbed traffic); slave-only nodes that would win the election are not judged; clockClass < 128 non-best nodes are leaves.",
         "DESIGN.md section 4 C01",
     ),
     "C02": (
         "exploration",
         "closed-loop runtime monitor: real master port and real slave port with the default Kalman servo run against clock models in a discrete-event simulation; the true offset is computed from the clock models (never from the servo's belief) and sampled every 100 ms of virtual time; step_clock calls come from the recording clock; checked + release builds",
-        "Corner and random interior points of the parameter box (offset +-10 s, +-150 ppm, delay 1-400 us, jitter 0-20 us, sync/delay intervals 2^-3..2^1 s, one-/two-step) are each simulated for Tc+300 s. After Tc the true offset must stay within max(1 us, jitter amplitude) and no step may occur. Evidence reports the measured distribution (steady-state offset as a fraction of the bound, last excursion, last step). 20 % of the runs report the slave's transmit timestamps after the round trip; a third use time bases 2^40 s / 2^47 s; start classes without a slow tail on the unchanged tree have per-class deadlines (2x the calibrated worst case).",
+        "Corner and random interior points of the parameter box (offset +-10 s, +-150 ppm, delay 1-400 us, jitter 0-20 us, sync/delay intervals 2^-3..2^1 s, one-/two-step) are each simulated for Tc+300 s. After Tc the true offset must stay within max(1 us, jitter amplitude) and no step may occur. Evidence reports the measured distribution (steady-state offset as a fraction of the bound, last excursion, last step). 20 % of the runs report the slave's transmit timestamps after the round trip; a third use time bases 2^40 s / 2^47 s; start classes without a slow tail on the unchanged tree have per-class deadlines (2x the calibrated worst case). 3 of 7 runs add a second, worse, two-step masterOnly master on the segment whose Sync/Follow_Up sequence ids run in lockstep with the parent's (its clock 0.5 ms..1.7 s away); those runs are judged against the generic bound only.",
         "Bounds are calibrated on the unchanged tree (4000 runs: steady state <= 0.46 x bound, last excursion 215 s / 494 s, last step 402 s) with a factor >= 2: Tc = 450 s (sync <= 1 s) / 1000 s (2 s). Constant oscillator error, symmetric delay, uniform jitter; a run that aborts on a panic says nothing here (C03).",
         "DESIGN.md section 4 C02",
     ),
@@ -31,7 +31,7 @@ CHECKS = {
     "C04": (
         "exploration",
         "runtime differential monitor: independent reference codec + two-run tail-independence comparison + parser of the derived Debug rendering (read side); checked + release builds",
-        "Every generated byte string is pushed through the real decoder/encoder (FuzzMessage) and judged by an independently written codec: totality (catch_unwind), declared-length discipline, independence from bytes beyond messageLength (three-run comparison), re-encode length/equality, field-by-field agreement of input and re-encoded bytes on all defined fields, and agreement of each decoded field (Debug rendering) with the reference reading. Systematic sweeps of every 8/16-bit field, all 2^12 flag combinations, TLV layouts and messageLength relations plus seeded random/mutated inputs; holds on the inputs executed. Re-encoding into a 0xff-filled buffer must decode to an equal message; lengthField boundary values 0x7ffe..0xffff.",
+        "Every generated byte string is pushed through the real decoder/encoder (FuzzMessage) and judged by an independently written codec: totality (catch_unwind), declared-length discipline, independence from bytes beyond messageLength (three-run comparison), re-encode length/equality, field-by-field agreement of input and re-encoded bytes on all defined fields, and agreement of each decoded field (Debug rendering) with the reference reading. Systematic sweeps of every 8/16-bit field, all 2^12 flag combinations, TLV layouts and messageLength relations plus seeded random/mutated inputs; holds on the inputs executed. Re-encoding into a 0xff-filled buffer must decode to an equal message; lengthField boundary values 0x7ffe..0xffff. Forwarding path (the only place a decoded TLV is written again field by field): TLVs of every tlvType at the edges of the propagating ranges plus a seeded stride through 0x4000..0x7fff pass through a two-port boundary clock and are read from the emitted Announce by the reference codec.",
         "Trusts refcodec (pinned against the repository's own wire vectors) and, for the read-side clause, the stability of the derived Debug format (a parse failure is reported as inconclusive, never as a violation). Reserved bits/values are masked as the property says.",
         "DESIGN.md section 4 C04",
     ),
@@ -66,7 +66,7 @@ CHECKS = {
     "C09": (
         "exploration",
         "runtime history oracle over a recording Filter: scripted exchanges with unique timestamps/corrections; each Measurement must equal the IEEE expression over ONE delivered exchange in exact i128 arithmetic; all Sync/Follow_Up sequences up to a length bound enumerated, delay/noise interleavings sampled; checked + release builds",
-        "A real slave port (E2E) over a recording filter is fed every sequence (length <= 6 quick, 7 thorough) over the six messages of three Sync exchanges (two-step, one-step, mixed; sequence ids around wrap), plus seeded interleavings with Delay_Req timers, transmit timestamps, matching/late/duplicate/foreign Delay_Resp and copies from a non-parent master. Because every exchange has unique values, a measurement mixing two exchanges or using a foreign message cannot equal any legal value. Stray Follow_Ups around one-step Syncs; parent-port-switch and two-slave-phases scenarios.",
+        "A real slave port (E2E) over a recording filter is fed every sequence (length <= 6 quick, 7 thorough) over the six messages of three Sync exchanges (two-step, one-step, mixed; sequence ids around wrap), plus seeded interleavings with Delay_Req timers, transmit timestamps, matching/late/duplicate/foreign Delay_Resp and copies from a non-parent master. Because every exchange has unique values, a measurement mixing two exchanges or using a foreign message cannot equal any legal value. Stray Follow_Ups around one-step Syncs; parent-port-switch and two-slave-phases scenarios. The first delay measurement of a slave phase must not use a Sync of an earlier phase.",
         "Trusts refcodec, the recording filter and the harness' exact arithmetic; delay = (sync - delay)/2 is accepted within 1 unit of 2^-32 ns (fixed-point division).",
         "DESIGN.md section 4 C09",
     ),
@@ -80,7 +80,7 @@ CHECKS = {
     "C10": (
         "exploration",
         "runtime monitor on emitted frames: every PortAction frame decoded by the independent codec and by the library's own parser; exact integer arithmetic on the supplied 80-bit timestamps; per-type sequence registers over 70 000 emissions; checked + release builds",
-        "Real master (and slave/P2P) ports are driven through seeded histories of Sync/transmit-timestamp, Delay_Req, Pdelay_Req, Announce and delay-request-timer events with lattice and random timestamps, correction fields and request headers. Each emitted frame is decoded and compared with what the property prescribes (Follow_Up/Delay_Resp exact to 2^-16 ns, Pdelay times to the ns, echoed identities and sequence ids, consecutive sequence numbers incl. wrap, identity/domain/sdoId, size, single event send). Non-zero delay asymmetry on master ports; P2P ports driven faulty must still answer Pdelay_Req.",
+        "Real master (and slave/P2P) ports are driven through seeded histories of Sync/transmit-timestamp, Delay_Req, Pdelay_Req, Announce and delay-request-timer events with lattice and random timestamps, correction fields and request headers. Each emitted frame is decoded and compared with what the property prescribes (Follow_Up/Delay_Resp exact to 2^-16 ns, Pdelay times to the ns, echoed identities and sequence ids, consecutive sequence numbers incl. wrap, identity/domain/sdoId, size, single event send). Non-zero delay asymmetry on master ports; P2P ports driven faulty must still answer Pdelay_Req. set_slave_only toggled between a Sync and its transmit timestamp: the Follow_Up is still owed.",
         "Trusts refcodec and the harness' i128 arithmetic. When the sum of request correction and sub-ns part does not fit the 64-bit field only 'no wrap-around, no panic' is demanded.",
         "DESIGN.md section 4 C10",
     ),
@@ -101,7 +101,7 @@ CHECKS = {
     "C13": (
         "exploration",
         "runtime assertions inside a recording Clock: every set_frequency/step_clock argument issued by KalmanFilter and BasicFilter (driven directly through the public Filter trait and through real ports) is checked for finiteness and the configured bounds; clock behaviours include failing calls and times behind/ahead of the filter; checked + release builds",
-        "Adversarial measurement sequences (log-lattice offsets to +-1e9 s, equal and backward event times, zero-variance sets, alternating kinds, update() calls) are fed to the real filters under many servo configurations; the recording clock asserts |ppm| <= max_freq_offset, finite values, |step| >= step_threshold, and at most one bounded command on demobilize (also observed through a real port leaving the slave state). Peer delay exchanges and filter-update timers on never-slave and no-longer-slave P2P ports must leave the clock alone.",
+        "Adversarial measurement sequences (log-lattice offsets to +-1e9 s, equal and backward event times, zero-variance sets, alternating kinds, update() calls) are fed to the real filters under many servo configurations; the recording clock asserts |ppm| <= max_freq_offset, finite values, |step| >= step_threshold, and at most one bounded command on demobilize (also observed through a real port leaving the slave state). Peer delay exchanges and filter-update timers on never-slave and no-longer-slave P2P ports must leave the clock alone. The no-longer-slave state is reached by announce receipt timeout and by a two-responder fault.",
         "Trusts the recording clock; event times follow applied steps in the 'consistent' clock mode (as timestamps of a stepped clock do). 1e-9 relative slack on the frequency bound, 2 ns on the step threshold.",
         "DESIGN.md section 4 C13",
     ),
@@ -115,14 +115,14 @@ CHECKS = {
     "C18": (
         "exploration",
         "runtime reference-model monitor: exact integer affine clock model compared with OverlayClock/SharedClock after every operation of enumerated and seeded random adjustment sequences; checked + release builds",
-        "Sequences of set_frequency/step_clock/advance/convert are executed on the real OverlayClock over a harness-controlled underlying clock; continuity, exact step size, rate, returned times and conversions are compared with an independent affine model after every call. All operation-kind triples over lattice values are enumerated, longer sequences are sampled. SharedClock<OverlayClock<LinuxClock>> over read-only CLOCK_TAI: port_timestamp_to_time through every wrapper equals the overlay's own mapping.",
+        "Sequences of set_frequency/step_clock/advance/convert are executed on the real OverlayClock over a harness-controlled underlying clock; continuity, exact step size, rate, returned times and conversions are compared with an independent affine model after every call. All operation-kind triples over lattice values are enumerated, longer sequences are sampled. SharedClock<OverlayClock<LinuxClock>> over read-only CLOCK_TAI: port_timestamp_to_time through every wrapper equals the overlay's own mapping. An underlying clock that advances on every read exposes double reads.",
         "Trusts the harness' integer affine reference; tolerance 2^-30 ns per comparison plus the I96F32 quantisation of arbitrary ppm values. Conversions of underlying timestamps older than the latest adjustment are not demanded.",
         "DESIGN.md section 4 C18",
     ),
     "C15": (
         "exploration",
         "runtime FIFO-shadow monitor over real ports sharing the daemon's real TlvForwarder (one duplicate() per port) or a contract-honouring scripted provider: every TLV carries a unique tag, room accounting is recomputed independently, every emitted Announce is decoded by the reference codec and by the library's own parser; looping Announces are judged by before/after snapshots",
-        "A boundary clock (one slave port, 1-3 master ports) receives Announces from its parent, another acceptable master and an unacceptable one with 0-6 TLVs of propagating and non-propagating types, value lengths every even size 0..1100, sizes equal to / just above / just below the remaining room, oversize-first-then-small, bursts of ~180 Announces beyond the forwarder capacity, PATH_TRACE with 0..200 entries incl. paths containing the own identity. Each emitted Announce must carry exactly the expected TLV suffix (FIFO, at most once, unaltered, only from the parent, only propagating types, within 1024 bytes, decodable), and the parent's path with the own identity appended. Daemon tier (daemon/dtier.py): the real two-port daemon between a scripted parent and a sniffer in network namespaces, once over UDP/IPv4 and once over layer-2 Ethernet transport; every propagating TLV of the parent (unique tags, five type codes) must leave the master port exactly once, unaltered and in order through main.rs' action loop and the shared TlvForwarder, TLVs of non-propagating types or of another (unselected) master never, every emitted Announce carries the parent's path plus the own identity, and Announces of the parent whose path contains the daemon's identity leave data sets and emitted Announces untouched. Senders include another port of the parent's clock; grandmaster by BMCA from the slave state must announce the own identity only.",
+        "A boundary clock (one slave port, 1-3 master ports) receives Announces from its parent, another acceptable master and an unacceptable one with 0-6 TLVs of propagating and non-propagating types, value lengths every even size 0..1100, sizes equal to / just above / just below the remaining room, oversize-first-then-small, bursts of ~180 Announces beyond the forwarder capacity, PATH_TRACE with 0..200 entries incl. paths containing the own identity. Each emitted Announce must carry exactly the expected TLV suffix (FIFO, at most once, unaltered, only from the parent, only propagating types, within 1024 bytes, decodable), and the parent's path with the own identity appended. Daemon tier (daemon/dtier.py): the real two-port daemon between a scripted parent and a sniffer in network namespaces, once over UDP/IPv4 and once over layer-2 Ethernet transport; every propagating TLV of the parent (unique tags, five type codes) must leave the master port exactly once, unaltered and in order through main.rs' action loop and the shared TlvForwarder, TLVs of non-propagating types or of another (unselected) master never, every emitted Announce carries the parent's path plus the own identity, and Announces of the parent whose path contains the daemon's identity leave data sets and emitted Announces untouched. Senders include another port of the parent's clock; grandmaster by BMCA from the slave state must announce the own identity only. Looping Announces with stepsRemoved 254/255/256/65535.",
         "After forwarder overflow (lag) only order, uniqueness and integrity are demanded. The path length is constant within a case: a TLV that fitted when received but no longer fits because the parent's path grew meanwhile can still block a port's queue (not claimed; documented in DESIGN). A path too long to extend is expected to be omitted.",
         "DESIGN.md section 4 C15",
     ),
@@ -138,7 +138,7 @@ CHECKS = {
 CHECKS["C19"] = (
     "exploration",
     "black-box runtime monitor of the real statime-metrics-exporter binary (subprocess, built from /repo's current tree): the harness serves the observation socket exactly like the daemon's observer (one write of the JSON, then close) with states taken from live simulated instances through the daemon's getters, and an independent HTTP + OpenMetrics parser compares every served metric with the state under the meaning of the metric's own HELP/UNIT/name suffix",
-    "Instance states (grandmaster, slave with servo estimates, 1-8-port boundary clocks, P2P ports with measured link delay, Faulty/Passive/Listening/Master/Slave ports, path lists up to 118 entries, every time-properties combination, synthetic offsets/delays to +-10 s and beyond 64 bits of 2^-32 ns) make the JSON hop (serialise, exporter-side parse, re-serialise byte-identically) and the HTTP hop (status, Content-Length = body length, well-formed exposition text ending in # EOF, every expected metric present with the expected value; booleans true = 1, _nanoseconds in nanoseconds, port state by its IEEE enumeration value). Daemon tier (daemon/dtier.py): three real daemons on a veth segment; in the converged state each daemon's observation-socket JSON (observer.rs, assembled in main.rs) is compared field by field with what the wire shows (the grandmaster's sniffed Announce: identity, priorities, quality, flags, UTC offset, path trace, announcing port; own configured identity/priority1; stepsRemoved), and the real exporter pointed at each live socket must serve 200 with the daemon's values. Aborted scrapes (RST while the exporter waits for a slowed observation socket) before judged ones; the mean link delay of a P2P port is held against the measured delay across role changes.",
+    "Instance states (grandmaster, slave with servo estimates, 1-8-port boundary clocks, P2P ports with measured link delay, Faulty/Passive/Listening/Master/Slave ports, path lists up to 118 entries, every time-properties combination, synthetic offsets/delays to +-10 s and beyond 64 bits of 2^-32 ns) make the JSON hop (serialise, exporter-side parse, re-serialise byte-identically) and the HTTP hop (status, Content-Length = body length, well-formed exposition text ending in # EOF, every expected metric present with the expected value; booleans true = 1, _nanoseconds in nanoseconds, port state by its IEEE enumeration value). Daemon tier (daemon/dtier.py): three real daemons on a veth segment; in the converged state each daemon's observation-socket JSON (observer.rs, assembled in main.rs) is compared field by field with what the wire shows (the grandmaster's sniffed Announce: identity, priorities, quality, flags, UTC offset, path trace, announcing port; own configured identity/priority1; stepsRemoved), and the real exporter pointed at each live socket must serve 200 with the daemon's values. Aborted scrapes (RST while the exporter waits for a slowed observation socket) before judged ones; the mean link delay of a P2P port is held against the measured delay across role changes. currentDS.stepsRemoved is read while no port is slave (between an announce receipt timeout and the next BMCA run, and on a slave-only instance that lost its parent) and held against what the master port announces.",
     "The table metric -> state field is derived from the help texts, not from format.rs. States whose JSON exceeds the exporter's single 16 KiB read (80 ports) are only observed (answered with 500), as the property's quantifier does not name them. Getter-vs-truth equality is C05/C11's business.",
     "DESIGN.md section 4 C19",
 )
